@@ -196,6 +196,20 @@ Theorem C09_converges_served : forall truth cur_of pd budget fuel k T c c',
 Proof. intros truth cur_of pd budget fuel k T c c' H1 H2 H3 H4 H5 H6 H7 H8. exact (round_served truth H1 cur_of H2 pd H3 budget fuel H4 H5 k T H6 H7 c c' H8). Qed.
 Print Assumptions C09_converges_served.
 
+(* the same through the real sender: RegionRequestSender.SendReqCtx locates once and makes as many attempts as it likes on the
+   cached entry (its choice is the oracle [inner]); its effects on the cache are compositions of the modelled operations (checked
+   on every sender round of the harness). Whatever it chooses, 4 calls suffice. *)
+Theorem C09_converges_composed : forall truth cur_of pd budget fuel k T c inner,
+  truth_wf truth ->
+  (forall R, In R truth -> In R (cur_of R) /\ forall d, In d (cur_of R) -> In d truth) ->
+  (forall t k T, In T truth -> tcontains T k = true -> pd t (ReqGet k) = PdOne (Some T)) ->
+  (0 < budget)%nat -> (0 < fuel)%nat ->
+  In T truth -> tcontains T k = true ->
+  cinv truth c ->
+  srounds truth cur_of pd budget fuel inner 4 0 c k = true.
+Proof. intros truth cur_of pd budget fuel k T c inner H1 H2 H3 H4 H5 H6 H7 H8. exact (converges_composed truth H1 cur_of H2 pd H3 budget fuel H4 H5 k T H6 H7 inner c H8). Qed.
+Print Assumptions C09_converges_composed.
+
 (* the invariant is established by the empty cache and kept by everything a round does: inserting current regions
    and updating entries in place *)
 Theorem C09_converges_inv_insert : forall truth c r T,
